@@ -321,17 +321,19 @@ def substring1NonAscii (cfg : Cfg) (ext : Ext) (h : List Nat) (c : Nat) (start :
 def restEqAscii (cfg : Cfg) (suffix n : List Nat) (k : Nat) : Bool :=
   ((suffix.drop k).take (n.length - k)).map (normAscii cfg) == n.drop k
 
+/-- how many leading needle characters the prefilter of `substring_match_ascii` has already compared, and whether it
+    is the case-insensitive single-character prefilter -/
+def substringKIC (cfg : Cfg) (n : List Nat) : Nat × Bool :=
+  match (if cfg.ignoreCase then findIdx (fun c => 97 ≤ c && c ≤ 122) n else none) with
+  | some 0 => (1, true)
+  | some 1 => (1, false)
+  | some len => (len, false)
+  | none => (n.length, false)
+
 /-- `substring_match_ascii` -/
 def substringAscii (cfg : Cfg) (ext : Ext) (h n : List Nat) : MRes :=
-  let letterPos := findIdx (fun c => 97 ≤ c && c ≤ 122) n
-  -- how many leading needle characters the prefilter has already compared, and whether it is the
-  -- case-insensitive single-character prefilter
-  let (k, ic) : Nat × Bool :=
-    match (if cfg.ignoreCase then letterPos else none) with
-    | some 0 => (1, true)
-    | some 1 => (1, false)
-    | some len => (len, false)
-    | none => (n.length, false)
+  let k := (substringKIC cfg n).1
+  let ic := (substringKIC cfg n).2
   let limit := h.length - n.length + 1
   let rec go (b : Best) (prev : CharClass) (pos : Nat) : List Nat → Best
     | [] => b
